@@ -148,6 +148,20 @@ def hostile_smiles(rng, seeds=()):
             body = rng.choice([head + body, body + head if not body.endswith(".") else body + "." + head,
                                head + "." + body, head + "(" + body + ")C"])
         return "long", body
+    if x < 0.87:
+        # any element in an aromatic position: lower-case bracket spelling inside a ring, or upper case with ':' bonds;
+        # with and without H / charge / isotope
+        from vmon.smiles_reader import ELEMENTS
+        el = rng.choice(sorted(ELEMENTS))
+        body = rng.choice(["", "", "H", "H2", "+", "-", "H+", "H-"])
+        iso = rng.choice(["", "", "", "13", "0"])
+        if rng.random() < 0.6:
+            a = "[%s%s%s]" % (iso, el.lower(), body)
+            t = rng.choice(["%s1ccccc1", "c1cc%scc1", "%s1cccc1", "c1c%sccc1C", "C%s1ccccc1", "%s1cc%scc1", "c1ccc2%sccc2c1", "%s", "C%sC", "%s:%s"])
+        else:
+            a = "[%s%s%s]" % (iso, el, body)
+            t = rng.choice(["%s:1:c:c:c:c:c:1", "C1:C:C:%s:C:C:1", "%s:1cccc1", "%s1:C:C:C:C:1", "C:%s", "%s:%s", "c1cc:%s:cc1"])
+        return "aromatic-any-element", t.replace("%s", a)
     if x < 0.94:
         # ring-closure trouble: self closures, mismatched bonds, reuse, aromatic bond symbols anywhere
         return "rings", rng.choice(["C11", "C1C1", "C12C12", "C=1CC-1", "C/1CC\\1", "C1CC=1", "C%11%11", "C1CC2", "C1(C1)", "C1.C1",
